@@ -328,3 +328,76 @@ def g_link_lib_global(s: str) -> bool:
     ok = a_cdb is not None and a_make == a_ninja and _norm_paths(a_make) == _norm_paths(list(a_cdb))
     ok = ok and './libutil.a' in a_make and (s == '' or s in a_make)
     return R(ok)
+
+
+# ---- whole-file evaluation: the order in which file-scope variables are defined matters ---------
+from bfg9000.backends.ninja import writer as nwriter
+from bfg9000.backends.make import writer as mwriter_mod
+
+
+def _write_whole(writer_mod, build, backend):
+    """run the real <backend>.writer.write(env, build_inputs) into memory"""
+    buf = StringIO()
+
+    class _F:
+        def __enter__(self):
+            return buf
+
+        def __exit__(self, *a):
+            return False
+    had = hasattr(writer_mod, 'open')
+    old = getattr(writer_mod, 'open', None)
+    writer_mod.open = lambda *a, **k: _F()
+    oldb = ENV.backend
+    ENV.backend = backend
+    # there is no ninja binary in the sandbox: the clean rule only needs *a* program path
+    dict.__setitem__(ENV.variables, 'NINJA', '/bin/true')
+    try:
+        writer_mod.write(ENV, build)
+    finally:
+        ENV.backend = oldb
+        if had:
+            writer_mod.open = old
+        else:
+            del writer_mod.open
+    return buf.getvalue()
+
+
+def w_whole_file(hasinc: bool, hasopt: bool, local: bool) -> bool:
+    """the complete build.ninja written by the real ninja.writer.write, evaluated as Ninja does
+    (file-scope bindings take the values known *when they are read*): a global include directory
+    in the source tree and a global option reach the compiler, as they do in the entry of
+    compile_commands.json
+    pre: True
+    post: _
+    """
+    build, ctx = _context()
+    if hasinc:
+        inc = ctx['header_directory']('include')
+        from bfg9000 import options as bopts
+        ctx['global_options']([bopts.include_dir(inc)], lang='c')
+    if hasopt:
+        ctx['global_options'](['-DG=a b'], lang='c')
+    ctx['object_file'](file='a.c', options=['-DL=1'] if local else [])
+    build['regenerate'].outputs = []
+    edges = list(build.edges())
+    cdb = compdb.CompDB(ENV)
+    for e in edges:
+        if type(e) in compdb._rule_handlers:
+            compdb._rule_handlers[type(e)](e, build, cdb, ENV)
+    text = _write_whole(nwriter, build, 'ninja')
+    man = rninja.manifest(text)
+    if man is None:
+        return R(False)
+    cmd = rninja.command_of(man, 'a.o')
+    if cmd is None:
+        return R(False)
+    a_ninja = rsh.argv(cmd)
+    if a_ninja is None:
+        return R(False)
+    a_ninja = _strip(a_ninja, NINJA_ONLY)
+    a_cdb = list(cdb._commands[0]['arguments'])
+    ok = _norm_paths(a_ninja) == _norm_paths(a_cdb)
+    if hasinc:
+        ok = ok and '-I/srcdir/include' in a_ninja
+    return R(ok)
